@@ -358,7 +358,10 @@ WHOLE_NF = {
     "clear": {"bound": "UNIT_COUNT", "effects": [["_storage[i]=0"]], "hits": [], "tail": None},
     "empty": {"bound": "UNIT_COUNT", "effects": [[]], "hits": [(N(A("0==_storage[i]")), False)], "tail": ("const", True)},
     "operator!=": {"bound": "UNIT_COUNT", "effects": [[]], "hits": [(N(A("_storage[i]==other._storage[i]")), True)], "tail": ("const", False)},
-    "operator&": {"bound": "UNIT_COUNT", "effects": [[]], "hits": [(A("(_storage[i]&other._storage[i])==0"), False)], "tail": ("const", True)},
+    # `a & b` (bool) is "the two sets intersect": true at the first unit with a common index, false after the last.  (Until fix #40 this entry
+    # described the library's loop - false at the first unit *without* a common index - i.e. it had frozen a defect; the property says
+    # "and ... behaves as the corresponding set operation", and no set predicate depends on the storage granularity.)
+    "operator&": {"bound": "UNIT_COUNT", "effects": [[]], "hits": [(N(A("(_storage[i]&other._storage[i])==0")), True)], "tail": ("const", False)},
     "operator&=": {"bound": "UNIT_COUNT", "effects": [["_storage[i]&=other._storage[i]"]], "hits": [], "tail": None},
 }
 
